@@ -696,3 +696,38 @@ _more("C19", "three further bodies: `wide` (one value through every kind of enco
       "one 3-thread set), <= 2 preemptions, all schedules",
       "the same sets with <= 3 preemptions for the small bodies (2 for 3-thread sets and the large bodies); ASan build of the quick bound")
 CHECKS["C20"]["bounds"]["quick"] = CHECKS["C20"]["bounds"]["quick"].replace("g++ -O1 build", "g++ -O2 build")
+
+# ----------------------------------------------------------------------------------------------- round 9 (DESIGN.md 13.5b)
+_more("C19", "body `fdio`: FdWriter/FdReader/Serializer<FdWriter>/Deserializer<FdReader> on a MODELLED kernel behind "
+             "--wrap=read/write/close/signal/sigaction - descriptor numbers are handed out lowest-free-first (so a number closed by one "
+             "object is given to the next open() of any thread), every system call is a scheduling point, the SIGPIPE disposition is "
+             "process-wide and a write to a descriptor whose peer is gone raises SIGPIPE according to it; after every execution the "
+             "disposition must be the application's handler again and no modelled descriptor may be left open",
+      "45 thread sets (the earlier 43, fdio with itself and with libio), <= 2 preemptions, all schedules",
+      "the same sets plus fdio x 3 with <= 3 preemptions for the small bodies (2 for 3-thread sets and the large bodies); ASan build of the quick bound")
+_more("C16", "range reads/writes of bool elements over source bytes that are not 0/1 (what the bytes mean is the decoder's business; the "
+             "wrapper counts what the wrapped reader consumed)")
+_more("C13", "the error enum's None is not its zero enumerator, and the zero enumerator is an ordinary error code")
+_more("C14", "re-entrant dispatch: a handler that causes the same bound method to be dispatched again on the same thread (nesting depth "
+             "0..3 x 3 argument values x function pointer / lambda / member-function bindings); the outer handler's by-reference "
+             "arguments are read after the nested dispatch returned")
+_more("C15", "handle policies whose type tag type is 8 / 16 bits wide (a wider tag is not a valid encoding of the tag type: "
+             "UnexpectedEncodingType; tags equal to the expected one modulo 2^8 / 2^16 / 2^32 are among the candidates)")
+_more("C10", "handle-bearing types (26 types incl. table entries) get the same enumeration from the handle lab: every call of the probe "
+             "writer/reader incl. PushHandle / GetHandle - for valid and for empty handles - fails in turn with every error code")
+_more("C17", "a StreamWriter over a sink that accepts `capacity` characters and then refuses: the call that overruns the sink must fail "
+             "with StreamError (Skip included), earlier output must be untouched; the search stops at the first failing call")
+_more("C09", "tuples and Variants with five and six operands whose only difference is in the fifth / sixth position")
+_more("C05", "the cross-version cuts are repeated in every wrapping context (struct member, vector element, entry of an enclosing "
+             "table, LAST entry of an enclosing table) for the versions that have contexts")
+_more("C06", "the three forms of Serializer (Writer*, std::unique_ptr<Writer>, Writer by value) take turns with the buffer capacity in "
+             "the BufferWriter and PedanticBufferWriter rigs (Deserializer forms likewise in the buffer reader rigs; this applies to every "
+             "codec-lab check)")
+_more("C11", "the read step also goes through every library reader rig (the fd reader delivers at most 3 bytes per system call)")
+_more("C04", "the FdReader rig (at most 3 bytes per read()) joins the mutation closure")
+_more("C02", "after a failed read the object is read into with EVERY picked valid encoding in turn and the first one again "
+             "(error -> value, value -> empty, long -> short ...), each compared with its value, sanitizer reports counted")
+_more("C03", "value domains keep values that encode alike but differ in the state of a sum type (Optional<Optional<U>> engaged-but-empty, "
+             "Result<E,Result<E,U>> value-holding-an-error); nested Results are in the universe (this applies to every codec-lab check)")
+_more("C07", "a fifth reader: StreamReader over a forward-only stream (no seeking, no get area - a pipe, socket or filter stream)")
+_more("C17", "reader side: StreamReader over a forward-only stream that cannot seek")
